@@ -216,6 +216,14 @@ def r_complete(ctx, rule='R01.5'):
             ctx.check(ok, 'R04.5', tag + '/complete-ongoing-zero', b, b.loc(*pts[0]),
                       'WorkLoad::Complete is returned only on an edge asserting ongoing == 0',
                       'WorkLoad::Complete can be returned while a node is still being processed (no edge asserting ongoing == 0)')
+    # Complete => best_ub := best_lb, in both solvers (after an uninterrupted run the upper bound equals the value)
+    for tag, adt in SOLVERS:
+        gwb = ctx.body(adt, 'get_workload')
+        comp_ = [(bb, i) for (bb, i, s_) in aggr_assigns(gwb, 'WorkLoad', 'Complete')]
+        cw_ = [pt for (pt, d, v, s_) in writes(gwb) if solver_field(d, 'best_ub') and is_lb(ctx.F)(v)]
+        r_ = gwb.reach([(0, 0)], avoid=cw_)
+        ctx.check(bool(comp_) and bool(cw_) and not any(p_ in r_ for p_ in comp_), 'R02.3', tag + '/complete-sets-ub', gwb, gwb.loc(*comp_[0]) if comp_ else gwb.loc(0),
+                  'every return of WorkLoad::Complete is preceded by best_ub := best_lb', 'WorkLoad::Complete can be returned without best_ub := best_lb: a solved run keeps a stale (infinite) upper bound')
     for tag, adt in SOLVERS:
         b = ctx.body(adt, 'maximize', trait='Solver')
         comp = aggr_assigns(b, 'common::Completion')
